@@ -338,3 +338,40 @@ func init() {
 		Stubs:  stubErrors,
 	})
 }
+
+func init() {
+	register(&PropSpec{
+		ID:   "C13",
+		Pkgs: []string{"band"},
+		Items: func(tier string, seed int64) []Item {
+			var it []Item
+			for _, c := range bandCfgs(tier) {
+				it = append(it, Item{PkgKey: "band", Func: "VerifC13_Closed", Shape: c})
+				it = append(it, Item{PkgKey: "band", Func: "VerifC13_Lookup", Shape: c})
+				it = append(it, Item{PkgKey: "band", Func: "VerifC13_Lookup", Shape: c, MapDesc: true})
+				it = append(it, Item{PkgKey: "band", Func: "VerifC13_RPValues", Shape: c})
+			}
+			nn := 14
+			if tier == "thorough" {
+				nn = 24
+			}
+			for n := 0; n < nn; n++ {
+				for dt := 0; dt <= 1; dt++ {
+					for ver := 0; ver < 7; ver++ {
+						for rev := 0; rev < 8; rev++ {
+							it = append(it, Item{PkgKey: "band", Func: "VerifC13_MaxPayload", Shape: []int{n, dt, ver, rev}})
+							if tier == "thorough" || (ver+rev)%3 == 0 || (ver == 6 && rev == 7) {
+								for rep := 0; rep <= 1; rep++ {
+									it = append(it, Item{PkgKey: "band", Func: "VerifC13_Monotone", Shape: []int{n, rep, dt, ver, rev}})
+								}
+							}
+						}
+					}
+				}
+			}
+			return it
+		},
+		Bounds: func(tier string) map[string]string { return map[string]string{} },
+		Stubs:  stubErrors,
+	})
+}
